@@ -87,7 +87,7 @@ def scratch_dir(prefix="tlc"):
 
 _STATS = re.compile(r"(\d+) states generated, (\d+) distinct states found, (\d+) states left on queue")
 _DEPTH = re.compile(r"The depth of the complete state graph search is (\d+)")
-_COV = re.compile(r"^<(\w+) line \d+, col \d+ to line \d+, col \d+ of module (\w+)>: (\d+):(\d+)", re.M)
+_COV = re.compile(r"^<(\w+) line \d+, col \d+ to line \d+, col \d+ of module (\w+)(?: \([\d ]+\))?>: (\d+):(\d+)", re.M)
 _ERR_KINDS = [
     (re.compile(r"Error: Invariant (\w+) is violated"), "invariant"),
     (re.compile(r"Error: Action property (\w+) is violated"), "action_property"),
